@@ -74,6 +74,40 @@ def _reach_exit_avoiding_edges(fn, start_blocks, avoid_blocks, exempt_blocks, cu
     return None
 
 
+def dirflag(run, fx, rule):
+    rs = fx.one('graphite2::Segment::reverseSlots')
+    # every write of m_dir in reverseSlots: `m_dir = m_dir ^ K` or `m_dir ^= K` with a constant K
+    tog, other = [], []
+    for _, e in rs.elements():
+        if e['k'] in ('BinaryOperator', 'CompoundAssignOperator') and e['op'] in ('=', '^=', '|=', '&=', '+=', '-=') \
+                and rs.render(rs.strip_all_casts(e['c'][0])) == 'this->m_dir':
+            k = None
+            if e['op'] == '^=':
+                k = dom._cval(rs, e['c'][1])
+            elif e['op'] == '=':
+                r = rs.strip_all_casts(e['c'][1])
+                if r['k'] == 'BinaryOperator' and r['op'] == '^':
+                    for x, y in ((r['c'][0], r['c'][1]), (r['c'][1], r['c'][0])):
+                        if rs.render(rs.strip_all_casts(x)) == 'this->m_dir' and dom._cval(rs, y) is not None:
+                            k = dom._cval(rs, y)
+            (tog if k is not None else other).append((e, k))
+    if len(tog) == 1 and not other and tog[0][1] & 1 == 0:
+        run.held(rule, 'reversal keeps the direction bit', rs.loc(tog[0][0]), 'reverseSlots flips only a high bit of m_dir: the entry and exit tests see the same (m_dir & 1)')
+    else:
+        run.violated(rule, 'reversal keeps the direction bit', rs.where(), 'reverseSlots modifies bit 0 of m_dir: the exit test of justify no longer mirrors the entry test')
+    # the "currently reversed" bit is toggled on EVERY path through reverseSlots (also for 0/1-slot runs): callers compare it with the
+    # pass direction to decide whether to reverse again, so a path that skips the toggle leaves the flag out of step with the stream
+    if len(tog) == 1 and not other:
+        tb = rs.block_of[tog[0][0]['i']]
+        in_cycle = tb in rs.reachable_from(rs.succs(tb)[0]) if rs.succs(tb) else False
+        if tb in rs.dominators()[rs.exit] and not in_cycle and tog[0][1] == 64:
+            run.held(rule, 'reversed flag toggled on every path', rs.loc(tog[0][0]), 'm_dir ^ 64 dominates every exit of reverseSlots and is not in a loop')
+        else:
+            run.violated(rule, 'reversed flag toggled on every path', rs.loc(tog[0][0]), 'reverseSlots can return without toggling bit 6 of m_dir (or toggles it more than once): '
+                         'after such a call currdir() disagrees with the actual order of the stream, and the next pass / the final '
+                         'ordering run over a stream that is reversed relative to what they assume')
+
+
 def justify_rules(run, fx):
     j = fx.one('graphite2::Segment::justify')
     # exempt exits: returns dominated by a null test of an addLineEnd result
@@ -175,19 +209,7 @@ def justify_rules(run, fx):
                          'Segment::justify can return after the entry reverseSlots() without re-reversing: the line (or the whole segment) is left '
                          'in reversed order and m_first/m_last swapped')
         # the operands of the condition are not written between the two tests (m_dir bit 0, silf fields)
-    rs = fx.one('graphite2::Segment::reverseSlots')
-    tog = [e for e in _assign_blocks(rs, 'this->m_dir')]
-    okt = False
-    for e in tog:
-        r = rs.strip_all_casts(e['c'][1])
-        if r['k'] == 'BinaryOperator' and r['op'] == '^':
-            k = rs.strip_all_casts(r['c'][1]).get('v')
-            if k is not None and k & 1 == 0 and rs.render(rs.strip_all_casts(r['c'][0])) == 'this->m_dir':
-                okt = True
-    if okt and len(tog) == 1:
-        run.held('REVERSEPAIR', 'reversal keeps the direction bit', rs.loc(tog[0]), 'reverseSlots flips only a high bit of m_dir: the entry and exit tests see the same (m_dir & 1)')
-    else:
-        run.violated('REVERSEPAIR', 'reversal keeps the direction bit', rs.where(), 'reverseSlots modifies bit 0 of m_dir: the exit test of justify no longer mirrors the entry test')
+    dirflag(run, fx, 'REVERSEPAIR')
     # ---- LINEENDPAIR
     adds = sorted(calls_in(j, 'graphite2::Segment::addLineEnd'), key=lambda e: (e['ln'], e['col']))
     dels = sorted(calls_in(j, 'graphite2::Segment::delLineEnd'), key=lambda e: (e['ln'], e['col']))
@@ -213,6 +235,15 @@ def justify_rules(run, fx):
                 if p['k'] == 'BinaryOperator' and p['op'] == '=':
                     tg.append(j.render(j.N(p['c'][0])))
                 cur = p['i']
+            # ... and copies of those (`pSlot = addLineEnd(pSlot); m_first = pSlot;`)
+            ab = j.block_of[a['i']]
+            for _ in range(3):
+                for _, e in j.elements():
+                    if e['k'] == 'BinaryOperator' and e['op'] == '=' and j.render(j.strip_all_casts(e['c'][1])) in tg \
+                            and (ab in j.dominators()[j.block_of[e['i']]]):
+                        l = j.render(j.N(e['c'][0]))
+                        if l not in tg:
+                            tg.append(l)
             a_tgt.append(tg)
         d_args = [j.render(j.strip_all_casts(d['args'][0])) for d in dels]
         ok = all(any(t in d_args for t in tg) for tg in a_tgt) and sorted(d_args) == ['this->m_first', 'this->m_last']
